@@ -25,6 +25,11 @@ impl<'a, T> MMWriter<'a, T> {
     where
         T: Copy,
     {
+        #[cfg(feature = "verif")]
+        crate::verif::emit(
+            "mm.write",
+            [pos as u64, data.len() as u64, self.slice.len() as u64, 0],
+        );
         ptr::copy_nonoverlapping(data.as_ptr(), self.slice[pos].get(), data.len());
     }
 }
